@@ -152,9 +152,9 @@ func vCode(err error) string {
 }
 
 type vKey struct {
-	kind cache.EntryKind
-	hash string
-	data []byte
+	kind    cache.EntryKind
+	hash    string
+	data    []byte
 	a, m, c int
 }
 
